@@ -145,6 +145,7 @@ func (s *Sched) Go(key string, fn func()) {
 	s.threads = append(s.threads, t)
 	s.mu.Unlock()
 	go func() {
+		RaceOff()
 		g := goid()
 		s.mu.Lock()
 		t.goid = g
@@ -153,11 +154,14 @@ func (s *Sched) Go(key string, fn func()) {
 		t.parked = true
 		s.mu.Unlock()
 		<-t.wake
+		RaceOn()
 		defer func() {
+			RaceOff()
 			s.mu.Lock()
 			t.done = true
 			delete(s.byGoid, g)
 			s.mu.Unlock()
+			RaceOn()
 		}()
 		fn()
 	}()
@@ -165,6 +169,8 @@ func (s *Sched) Go(key string, fn func()) {
 
 // Point parks the calling goroutine until the controller grants req.
 func (s *Sched) Point(req Req) {
+	RaceOff()
+	defer RaceOn()
 	g := goid()
 	s.mu.Lock()
 	t := s.byGoid[g]
@@ -201,6 +207,8 @@ func ChooseCost(n, cost int, label string) int {
 	if s == nil || n <= 1 {
 		return 0
 	}
+	RaceOff()
+	defer RaceOn()
 	s.mu.Lock()
 	defer s.mu.Unlock()
 	return s.decide(n, true, cost, label)
@@ -224,6 +232,8 @@ func (s *Sched) decide(n int, env bool, altCost int, label string) int {
 
 // Fail records a property violation for this execution.
 func (s *Sched) Fail(key, format string, a ...any) {
+	RaceOff()
+	defer RaceOn()
 	s.mu.Lock()
 	s.fails = append(s.fails, Failure{Key: key, Detail: fmt.Sprintf(format, a...)})
 	s.mu.Unlock()
@@ -231,6 +241,8 @@ func (s *Sched) Fail(key, format string, a ...any) {
 
 // Note attaches an observation to the execution (part of its outcome signature).
 func (s *Sched) Note(format string, a ...any) {
+	RaceOff()
+	defer RaceOn()
 	s.mu.Lock()
 	s.notes = append(s.notes, fmt.Sprintf(format, a...))
 	s.mu.Unlock()
@@ -273,6 +285,9 @@ func (s *Sched) Run() {
 	// let goroutines started during set-up (watchers, monitors) run, unscheduled, until
 	// they block, so that which of them become threads does not depend on timing
 	synctest.Wait()
+	// the controller's own synchronisation (wake-ups, s.mu) must not order the threads
+	RaceOff()
+	defer RaceOn()
 	atomic.StoreInt32(&s.phase, 1)
 	defer atomic.StoreInt32(&s.phase, 2)
 	idle := 0
